@@ -6,6 +6,7 @@ import itertools
 import math
 import uuid
 
+from rv.core import calling
 from rv.gen import geoms
 
 ANCHORS = ("io/crowsetta",)
@@ -86,6 +87,8 @@ def _o_spec(o):
             out[k] = sorted(v)
         elif k == "term":
             out[k] = v.label
+        elif k == "empty_labels":
+            out[k] = {"as": type(v).__name__, "labels": list(v)}
         else:
             out[k] = v
     return out
@@ -176,6 +179,15 @@ def judge_label_from_tags(ctx, tagspec, o):
             key = "label_from_tags:raises:select_by_key_with_value_only"
         ctx.violate_exc("label_from_tags:raises", key, e, spec=spec)
         return
+    if ctx.every(spec, 4):
+        kw = _mk_from_kwargs(o)
+        calling.agree(ctx, "label_from_tags", L.label_from_tags, dict(tags=tags, **kw), spec)
+        if tags:
+            kt = {k: v for k, v in kw.items() if k in ("label_fn", "label_mapping", "value_only", "separator")}
+            if "separator" in kt and "select_by_key" not in kw:
+                kt.pop("separator")
+            calling.agree(ctx, "label_from_tag", L.label_from_tag, dict(tag=tags[0], **{k: v for k, v in kt.items() if k != "separator"}), spec,
+                          variants={"boolish_value_only": {"value_only": calling.boolish(ctx.rng, kt["value_only"])}} if "value_only" in kt else None)
     if want is AMBIG:
         ctx.dc("select_by_key_with_explicit_value_only_false")
         return
@@ -543,6 +555,9 @@ def run(ctx):
              "key_mapping": None if kmap == "absent" else ({"x": "mapped_key"} if kmap == "hit" else {"other": "mapped_key"})}
         if rng.random() < 0.3:
             o["fallback"] = "fb"
+        if rng.random() < 0.3:
+            # which labels count as "empty" is an option too: nothing at all, an empty list, other labels
+            o["empty_labels"] = rng.choice([(), [], ["x"], ["NA"], [EMPTY, "x"], ("NA", EMPTY)])
         ctx.case(("label_to_tags", str(fn_mode), tmap, termmap, kmap, "key" if key else "nokey", "term" if term else "noterm"),
                  {"kind": "label_to_tags", "label": label, "options": _o_spec(o)}, nontrivial=any([fn_mode, key, term, tmap != "absent", termmap != "absent", kmap != "absent"]))
         judge_label_to_tags(ctx, label, o)
@@ -653,6 +668,8 @@ def _o_from_spec(o):
         out["term_mapping"] = {"x": tm} if "x" in o["term_mapping"] else {"other": tm}
     if "key_mapping" in o:
         out["key_mapping"] = {"x": "mapped_key"} if "x" in o["key_mapping"] else {"other": "mapped_key"}
+    if "empty_labels" in o:
+        out["empty_labels"] = tuple(o["empty_labels"]["labels"]) if o["empty_labels"]["as"] == "tuple" else list(o["empty_labels"]["labels"])
     return out
 
 
